@@ -3,7 +3,7 @@
 # demo/, meta.json) in a FRESH scratch worktree of /repo's HEAD, then store it as
 # /verif/seeded/<Cxx><suffix>/.  (git stash is shared between worktrees: never used here.)
 set -u
-P=$1; SUF=${2:-}; OUT=/tmp/mut/out/$P; DST=/verif/seeded/$P$SUF; V=/tmp/mut/verify_$P
+P=$1; SUF=${2:-}; MUTROOT=${MUTROOT:-/tmp/mut}; OUT=$MUTROOT/out/$P; DST=/verif/seeded/$P$SUF; V=$MUTROOT/verify_$P
 export GOFLAGS=-mod=mod GOPROXY=off GOSUMDB=off GOTOOLCHAIN=local
 git -C /repo worktree remove --force $V 2>/dev/null
 git -C /repo worktree add -q --detach $V HEAD || exit 2
